@@ -375,6 +375,10 @@ class Interp(ExprMixin):
 
     def call_ext(self, name, args, kwargs, st, node):
         STATS['calls_external'] += 1
+        if None in kwargs:
+            # f(**unknown_mapping): kept as an opaque extra argument
+            kwargs = dict(kwargs)
+            args = list(args) + [app('starstar', P(kwargs.pop(None)))]
         self.log(st, 'call', node, callee='ext:' + name, bound={}, args=args, kwargs=kwargs)
         h = HANDLERS.get(name)
         if h is None and name.startswith('scipy.'):
